@@ -1,3 +1,317 @@
-// History-mode operations: malformed calls, dead descriptors, canaries, size queries, counter wrap.
+// History-mode operations: malformed calls inside live histories (BADCALL), dead descriptors, full use
+// cycles of accepted instances (CYCLE), canaries (CANARY), descriptor counter presets (SETCTR),
+// ISA-L stub knobs (ISAL).
 #include "sim.h"
-void exec_op_misc(World &W, const Json &op, const std::string &kind) { W.probe("op.unknown"); }
+#include <dlfcn.h>
+#include <limits.h>
+
+extern "C" {
+extern int next_backend_desc __attribute__((weak));
+}
+
+static bool refused(const std::string &api, long rc) {
+    if (api == "is_invalid_fragment") return rc == 1;
+    if (api == "backend_available") return rc == 0;
+    return rc < 0;
+}
+
+static int pick_desc(World &W, const Slot &s, const std::string &dm, int var, bool *ok) {
+    *ok = true;
+    if (dm == "live") { if (!s.live) *ok = false; return s.desc; }
+    if (dm == "dead") {
+        if (W.dead_descs.empty()) { *ok = false; return -1; }
+        auto it = W.dead_descs.begin(); std::advance(it, (size_t) var % W.dead_descs.size());
+        return *it;
+    }
+    static const int never[] = {0, -1, INT_MAX, INT_MIN, 0x7ffffff0, 99999, -204, 1 << 20};
+    for (int i = 0; i < 8; i++) { int d = never[(var + i) & 7]; if (!W.live_descs.count(d)) return d; }
+    *ok = false; return 0;
+}
+
+// a template stripe for the slot (so that "all other arguments valid" really is valid)
+static const Obj *template_obj(World &W, const Slot &s) {
+    for (auto &o : W.objs) if (o.valid && s.live && o.cfg.same(s.cfg) && !o.orig.empty()) return &o;
+    return nullptr;
+}
+
+static void op_badcall(World &W, const Json &op) {
+    Slot &s = W.slots[(size_t) op["slot"].num() % World::NSLOT];
+    const std::string api = op["api"].str();
+    const std::string dm = op["dm"].str().empty() ? "live" : op["dm"].str();
+    int mask = op["mask"].in(0), var = op["var"].in(0);
+    bool ok; int desc = pick_desc(W, s, dm, var, &ok);
+    if (!ok) { W.probe("badcall.skipped-no-descriptor"); return; }
+    bool desc_bad = dm != "live";
+    const Obj *t = s.live ? template_obj(W, s) : nullptr;
+    // synthetic template when the slot has no stripe (dead / never descriptors still need plausible other arguments)
+    Obj synth;
+    if (!t) {
+        for (auto &o : W.objs) if (o.valid && !o.orig.empty()) { t = &o; break; }
+        if (!t) {
+            synth.valid = true; synth.cfg.k = 2; synth.cfg.m = 1; synth.flen = 96; synth.data.assign(32, 7);
+            synth.orig.assign(3, std::vector<u8>(96, 0)); synth.dev = synth.orig; t = &synth;
+        }
+    }
+    int n = (int) t->orig.size(), k = t->cfg.k > 0 ? t->cfg.k : 1;
+    W.cur_api = api;
+    W.fault(desc_bad ? (dm == "dead" ? "USE_DEAD" : "BAD_DESC") : "BADCALL");
+    size_t live0 = own::live();
+    long rc = 0; bool judged = desc_bad || mask != 0; bool noop_ok = false;
+    std::vector<char *> fr;
+    for (int i = 0; i < n; i++) fr.push_back((char *) W.arena.place(t->orig[i].data(), t->orig[i].size(), Arena::RIGHT));
+    static const int bad_nums[] = {INT_MIN, -1, 0, -7};
+    static const u64 bad_lens[] = {0, 1, 79, 40};
+    if (api == "encode") {
+        char **ed = nullptr, **ep = nullptr; u64 fl = 0;
+        char *in = (char *) W.arena.place(t->data.data(), t->data.size(), Arena::RIGHT);
+        rc = liberasurecode_encode(desc, (mask & 1) ? nullptr : in, t->data.size(), (mask & 2) ? nullptr : &ed, (mask & 4) ? nullptr : &ep, (mask & 8) ? nullptr : &fl);
+        if (rc == 0) { liberasurecode_encode_cleanup(desc, ed, ep); }
+        else if ((ed && own::owns(ed)) || (ep && own::owns(ep))) W.viol("C13 C16", "encode/error-left-output-pointers", "encode failed but left allocated arrays in the output pointers");
+    } else if (api == "encode_cleanup") {
+        // valid descriptor + NULL buffers is a legitimate no-op (free(NULL)); only "no crash, nothing retained" is judged
+        rc = liberasurecode_encode_cleanup(desc, nullptr, nullptr);
+        if (!desc_bad) noop_ok = true;
+    } else if (api == "decode") {
+        char *out = nullptr; u64 ol = 0;
+        int num = (mask & 2) ? ((var & 4) ? k - 1 : bad_nums[var & 3]) : n;
+        u64 fl = (mask & 4) ? bad_lens[var & 3] : t->flen;
+        rc = liberasurecode_decode(desc, (mask & 1) ? nullptr : fr.data(), num, fl, (var >> 3) & 1, (mask & 8) ? nullptr : &out, (mask & 16) ? nullptr : &ol);
+        if (rc == 0 && out) liberasurecode_decode_cleanup(desc, out);
+        if (rc == 0 && !desc_bad && mask == 2 && num == k - 1 && k - 1 >= 1) { /* fewer than k fragments must not decode */ }
+    } else if (api == "decode_cleanup") {
+        rc = liberasurecode_decode_cleanup(desc, nullptr);
+        if (!desc_bad) noop_ok = true;
+    } else if (api == "reconstruct") {
+        u8 *out = W.arena.place(nullptr, t->flen ? t->flen : 96, Arena::RIGHT, true);
+        int num = (mask & 2) ? bad_nums[var & 3] : n - 1;
+        u64 fl = (mask & 4) ? bad_lens[var & 3] : t->flen;
+        static const int bad_dest[] = {-1, 0, 1, INT_MAX, INT_MIN, 64, 1000};
+        int bd = bad_dest[(var >> 2) % 7]; if (bd == 0 || bd == 1) bd += s.live ? s.cfg.n() : n;
+        int dest = (mask & 8) ? bd : n - 1;
+        // fr without the last fragment so that the destination is genuinely missing
+        rc = liberasurecode_reconstruct_fragment(desc, (mask & 1) ? nullptr : fr.data(), num, fl, dest, (mask & 16) ? nullptr : (char *) out);
+    } else if (api == "fragments_needed") {
+        std::vector<int> R = {0, -1}, X = {-1}, N((size_t) n + 2, 0);
+        int *Rp = (int *) W.arena.place((u8 *) R.data(), 8, Arena::RIGHT), *Xp = (int *) W.arena.place((u8 *) X.data(), 4, Arena::RIGHT);
+        rc = liberasurecode_fragments_needed(desc, (mask & 1) ? nullptr : Rp, (mask & 2) ? nullptr : Xp, (mask & 4) ? nullptr : N.data());
+    } else if (api == "get_fragment_metadata") {
+        fragment_metadata_t md; memset(&md, 0, sizeof md);
+        if (mask == 0) mask = 1;
+        judged = true;
+        rc = liberasurecode_get_fragment_metadata((mask & 1) ? nullptr : fr[0], (mask & 2) ? nullptr : &md);
+    } else if (api == "is_invalid_fragment") {
+        rc = is_invalid_fragment(desc, (mask & 1) ? nullptr : fr[0]);
+    } else if (api == "verify_stripe_metadata") {
+        int num = (mask & 2) ? bad_nums[var & 3] : n;
+        rc = liberasurecode_verify_stripe_metadata(desc, (mask & 1) ? nullptr : fr.data(), num);
+    } else if (api == "get_aligned_data_size") {
+        rc = liberasurecode_get_aligned_data_size(desc, (u64) (var * 37 + 1)); judged = desc_bad;
+    } else if (api == "get_minimum_encode_size") {
+        rc = liberasurecode_get_minimum_encode_size(desc); judged = desc_bad;
+    } else if (api == "get_fragment_size") {
+        rc = liberasurecode_get_fragment_size(desc, var * 37 + 1); judged = desc_bad;
+    } else if (api == "instance_destroy") {
+        judged = desc_bad;
+        if (!desc_bad) { W.arena.release_all(); return; }   // destroying a live slot is DESTROY's job
+        rc = liberasurecode_instance_destroy(desc);
+    } else if (api == "backend_available") {
+        static const int ids[] = {EC_BACKENDS_MAX, EC_BACKENDS_MAX + 1, 255, -1, INT_MAX, 1000};
+        rc = liberasurecode_backend_available((ec_backend_id_t) ids[var % 6]); judged = true;
+    } else if (api == "instance_create") {
+        struct ec_args a; memset(&a, 0, sizeof a); a.k = 4; a.m = 2; a.hd = 2; a.ct = CHKSUM_NONE;
+        static const int ids[] = {EC_BACKENDS_MAX, EC_BACKENDS_MAX + 1, 255, -1, INT_MAX, 1000};
+        int id = (mask & 1) ? ids[var % 6] : EC_BACKEND_LIBERASURECODE_RS_VAND;
+        rc = liberasurecode_instance_create((ec_backend_id_t) id, (mask & 2) ? nullptr : &a); judged = mask != 0;
+        if (rc > 0) { liberasurecode_instance_destroy((int) rc); }
+    } else { W.probe("badcall.unknown-api"); W.arena.release_all(); return; }
+    W.trace.add("badcall.rc", rc);
+    if (judged) {
+        const char *what = desc_bad ? (dm == "dead" ? "dead-descriptor" : "unknown-descriptor") : "invalid-argument";
+        if (noop_ok) W.probe("badcall.cleanup-noop");
+        else if (!refused(api, rc)) W.viol(desc_bad ? "C13 C14" : "C13", api + "/" + what + "-accepted", api + " with " + what + " (mask " + std::to_string(mask) + ", variant " + std::to_string(var) + ") returned " + std::to_string(rc));
+        else W.probe(std::string("badcall.refused.") + what);
+        if (own::live() != live0) W.viol("C13 C16", api + "/refused-call-retained-memory", api + " refused the call but kept " + std::to_string((long) own::live() - (long) live0) + " block(s)");
+    }
+    W.arena.release_all();
+}
+
+// full use cycle of an instance that creation accepted: must run without arithmetic or memory faults (C13),
+// and round-trip for the coded backends
+static void op_cycle(World &W, const Json &op) {
+    Slot &s = W.slots[(size_t) op["slot"].num() % World::NSLOT];
+    if (!s.live) return;
+    u64 len = (u64) op["len"].num(100);
+    int k = s.cfg.k, m = s.cfg.m, n = k + m;
+    std::vector<u8> data(len); Rng r((u64) op["dseed"].num(1)); for (auto &b : data) b = (u8) r.next();
+    W.cur_api = "size-queries";
+    long a = liberasurecode_get_aligned_data_size(s.desc, len), mn = liberasurecode_get_minimum_encode_size(s.desc), fs = liberasurecode_get_fragment_size(s.desc, (int) len);
+    W.trace.add("cycle.aligned", a); W.trace.add("cycle.min", mn); W.trace.add("cycle.fs", fs);
+    if (a < 0 || mn < 0 || fs < 0) W.viol("C13", "cycle/size-query-failed-on-live-instance", "aligned=" + std::to_string(a) + " min=" + std::to_string(mn) + " fragsize=" + std::to_string(fs));
+    char *in = (char *) W.arena.place(data.data(), data.size(), Arena::RIGHT);
+    char **ed = nullptr, **ep = nullptr; u64 fl = 0;
+    size_t live0 = own::live();
+    W.cur_api = "encode";
+    int rc = liberasurecode_encode(s.desc, in, len, &ed, &ep, &fl);
+    W.trace.add("cycle.enc", rc);
+    if (rc != 0) { W.viol("C13", std::string("cycle/encode-failed/") + be_name(s.cfg.be), "accepted instance cannot encode: rc=" + std::to_string(rc)); W.arena.release_all(); return; }
+    std::vector<std::vector<u8>> frs;
+    for (int i = 0; i < n; i++) { char *f = i < k ? ed[i] : ep[i - k]; frs.emplace_back((u8 *) f, (u8 *) f + fl); }
+    liberasurecode_encode_cleanup(s.desc, ed, ep);
+    bool coded = s.cfg.be == EC_BACKEND_LIBERASURECODE_RS_VAND || s.cfg.be == EC_BACKEND_FLAT_XOR_HD || be_is_isal(s.cfg.be);
+    // decode from: everything, then with the maximum tolerated number of lost fragments (data first)
+    int tol = s.cfg.be == EC_BACKEND_FLAT_XOR_HD ? s.cfg.hd - 1 : m;
+    if (!coded) tol = 0;
+    for (int round = 0; round < 2; round++) {
+        int lose = round == 0 ? 0 : std::min(tol, n - 1);
+        if (round == 1 && lose == 0) break;
+        std::vector<char *> fr;
+        for (int i = lose; i < n; i++) fr.push_back((char *) W.arena.place(frs[i].data(), fl, (i & 1) ? Arena::RIGHT : 0));
+        char *out = nullptr; u64 ol = 0;
+        W.cur_api = "decode";
+        int d = liberasurecode_decode(s.desc, fr.data(), (int) fr.size(), fl, 0, &out, &ol);
+        W.trace.add("cycle.dec", d);
+        bool same = d == 0 && ol == len && (len == 0 || (out && memcmp(out, data.data(), len) == 0));
+        if (coded && be_is_isal(s.cfg.be) && lose) {
+            u64 mask = 0; for (int i = lose; i < n; i++) mask |= 1ULL << i;
+            if (!ref::isal_first_k_invertible(s.cfg.be == EC_BACKEND_ISA_L_RS_CAUCHY, k, m, mask)) { if (d == 0) liberasurecode_decode_cleanup(s.desc, out); continue; }
+        }
+        if (coded || lose == 0) {
+            if (d != 0) W.viol("C13", std::string("cycle/decode-failed/") + be_name(s.cfg.be), "accepted instance cannot decode its own stripe (lost " + std::to_string(lose) + "): rc=" + std::to_string(d));
+            else if (!same && coded) W.viol("C13", std::string("cycle/decode-wrong/") + be_name(s.cfg.be), "accepted instance decodes its own stripe to different bytes (lost " + std::to_string(lose) + ")");
+        }
+        if (d == 0) liberasurecode_decode_cleanup(s.desc, out);
+        if (coded && lose) {
+            u8 *ob = W.arena.place(nullptr, fl, 0, true);
+            W.cur_api = "reconstruct_fragment";
+            int rr = liberasurecode_reconstruct_fragment(s.desc, fr.data(), (int) fr.size(), fl, 0, (char *) ob);
+            W.trace.add("cycle.rec", rr);
+            if (rr != 0) W.viol("C13", std::string("cycle/reconstruct-failed/") + be_name(s.cfg.be), "rc=" + std::to_string(rr));
+            else if (memcmp(ob, frs[0].data(), fl) != 0) W.viol("C13", std::string("cycle/reconstruct-wrong/") + be_name(s.cfg.be), "fragment 0 rebuilt differently");
+        }
+    }
+    if (own::live() != live0) W.viol("C13 C16", "cycle/leak", "use cycle left " + std::to_string((long) own::live() - (long) live0) + " block(s)");
+    W.probe(std::string("cycle.done.") + be_name(s.cfg.be));
+    W.arena.release_all();
+}
+
+// ---------------------------------------------------------------- canaries: history independence (C15, C14, C18)
+struct CanaryDef { Cfg cfg; u64 len; u64 dseed; bool legacy; };
+static std::vector<CanaryDef> &canary_defs() {
+    static std::vector<CanaryDef> v;
+    if (v.empty()) {
+        auto add = [&](int be, int k, int m, int hd, int ct, u64 len, bool lg) { CanaryDef c; c.cfg.be = be; c.cfg.k = k; c.cfg.m = m; c.cfg.hd = hd; c.cfg.ct = ct; c.len = len; c.dseed = 0xC0FFEE + v.size(); c.legacy = lg; v.push_back(c); };
+        add(EC_BACKEND_LIBERASURECODE_RS_VAND, 4, 2, 2, 2, 1000, false);
+        add(EC_BACKEND_LIBERASURECODE_RS_VAND, 10, 4, 4, 1, 4097, false);
+        add(EC_BACKEND_LIBERASURECODE_RS_VAND, 1, 1, 1, 2, 33, true);
+        add(EC_BACKEND_LIBERASURECODE_RS_VAND, 20, 12, 12, 2, 777, false);
+        add(EC_BACKEND_FLAT_XOR_HD, 3, 3, 3, 2, 500, false);
+        add(EC_BACKEND_FLAT_XOR_HD, 10, 5, 3, 1, 2049, false);
+        add(EC_BACKEND_FLAT_XOR_HD, 12, 6, 4, 2, 90, true);
+        add(EC_BACKEND_ISA_L_RS_VAND, 5, 3, 3, 2, 1234, false);
+        add(EC_BACKEND_ISA_L_RS_CAUCHY, 8, 4, 4, 2, 64, false);
+        add(EC_BACKEND_NULL, 4, 2, 2, 2, 300, false);
+    }
+    return v;
+}
+static std::vector<u64> g_canary_ref;
+
+static u64 canary_digest(int desc, const CanaryDef &c, Arena &A, bool *okp) {
+    std::vector<u8> data(c.len); Rng r(c.dseed); for (auto &b : data) b = (u8) r.next();
+    char *in = (char *) A.place(data.data(), data.size(), Arena::RIGHT);
+    char **ed = nullptr, **ep = nullptr; u64 fl = 0;
+    int rc = liberasurecode_encode(desc, in, c.len, &ed, &ep, &fl);
+    *okp = rc == 0;
+    if (rc != 0) return 0;
+    u64 h = fnv1a(&fl, sizeof fl);
+    for (int i = 0; i < c.cfg.k + c.cfg.m; i++) h = fnv1a(i < c.cfg.k ? ed[i] : ep[i - c.cfg.k], fl, h);
+    liberasurecode_encode_cleanup(desc, ed, ep);
+    return h;
+}
+static int canary_create(const CanaryDef &c) {
+    struct ec_args a; memset(&a, 0, sizeof a); a.k = c.cfg.k; a.m = c.cfg.m; a.hd = c.cfg.hd; a.ct = (ec_checksum_type_t) c.cfg.ct;
+    return liberasurecode_instance_create((ec_backend_id_t) c.cfg.be, &a);
+}
+// reference digests: computed once per process before any run, i.e. in fresh-process state
+void canary_init() {
+    Arena &A = thread_arena();
+    for (auto &c : canary_defs()) {
+        if (c.legacy) setenv("LIBERASURECODE_WRITE_LEGACY_CRC", "1", 1); else unsetenv("LIBERASURECODE_WRITE_LEGACY_CRC");
+        int d = canary_create(c); bool ok = false; u64 h = 0;
+        if (d > 0) { h = canary_digest(d, c, A, &ok); liberasurecode_instance_destroy(d); }
+        g_canary_ref.push_back(ok ? h : 0);
+        A.release_all();
+    }
+    unsetenv("LIBERASURECODE_WRITE_LEGACY_CRC");
+    // the descriptor counter is part of the history the canaries must not depend on; start every process from the same value
+    if (&next_backend_desc) next_backend_desc = 0;
+}
+
+static void op_canary(World &W, const Json &op) {
+    auto &defs = canary_defs();
+    size_t ci = (size_t) op["c"].num() % defs.size();
+    const CanaryDef &c = defs[ci];
+    if (g_canary_ref.size() <= ci || g_canary_ref[ci] == 0) { W.probe("canary.no-reference"); return; }
+    bool env_was_set = W.env_set; std::string env_was = W.env_val;
+    set_env(W, c.legacy, "1");
+    // prefer a live instance of the same configuration (shared-instance history), else a temporary one
+    int desc = -1; bool temp = false;
+    for (auto &s : W.slots) if (s.live && s.cfg.same(c.cfg)) { desc = s.desc; break; }
+    W.cur_api = "canary";
+    if (desc < 0) {
+        desc = canary_create(c); temp = true;
+        if (desc <= 0) { W.viol("C14 C15 C18", "canary/create-failed", "canary configuration " + std::to_string(ci) + " could not be created: " + std::to_string(desc)); set_env(W, env_was_set, env_was); return; }
+        if (W.live_descs.count(desc)) W.viol("C14 C18", "descriptor-not-unique", "canary create returned live descriptor " + std::to_string(desc));
+    }
+    bool ok = false;
+    u64 h = canary_digest(desc, c, W.arena, &ok);
+    W.trace.add("canary", (i64) h);
+    if (!ok) W.viol("C14 C15 C18", "canary/encode-failed", "canary " + std::to_string(ci));
+    else if (h != g_canary_ref[ci]) W.viol("C14 C15 C18", std::string("canary/output-depends-on-history/") + be_name(c.cfg.be), "encode of a fixed (configuration, data) pair differs from the fresh-process result");
+    else W.probe("canary.match");
+    if (temp) { int rc = liberasurecode_instance_destroy(desc); if (rc != 0) W.viol("C14", "destroy-live-failed", "canary destroy rc=" + std::to_string(rc)); else W.dead_descs.insert(desc); }
+    set_env(W, env_was_set, env_was);
+    W.arena.release_all();
+}
+
+static void op_setctr(World &W, const Json &op) {
+    if (!&next_backend_desc) { W.probe("unreached.next_backend_desc-not-exported"); return; }
+    next_backend_desc = INT_MAX - op["back"].in(3);
+    W.fault("DESC_COUNTER_PRESET");
+}
+
+struct isal_stub_ctl_t { int clobber_input, layout, fail_invert_at; long n_invert, n_fail_real, n_fail_inj, n_encode, n_init, n_gen; };
+static isal_stub_ctl_t *isal_ctl() {
+    static isal_stub_ctl_t *p = nullptr; static bool tried = false;
+    if (!tried) { tried = true; void *h = dlopen("libisal.so.2", RTLD_LAZY | RTLD_LOCAL); if (h) p = (isal_stub_ctl_t *) dlsym(h, "isal_stub_ctl"); }
+    return p;
+}
+static void op_isal(World &W, const Json &op) {
+    isal_stub_ctl_t *c = isal_ctl();
+    if (!c) { W.probe("unreached.isal-stub-ctl"); return; }
+    if (op.has("clobber")) c->clobber_input = op["clobber"].in();
+    if (op.has("layout")) { c->layout = op["layout"].in() & 1; }
+    if (op.has("fail_at")) { c->fail_invert_at = op["fail_at"].in(); if (c->fail_invert_at > 0) W.fault("ISAL_INVERT_FAIL.armed"); }
+    W.fault("ISAL_KNOBS");
+}
+void isal_reset() { isal_stub_ctl_t *c = isal_ctl(); if (c) { c->clobber_input = 1; c->layout = 0; c->fail_invert_at = 0; } }
+long isal_injected_failures() { isal_stub_ctl_t *c = isal_ctl(); return c ? c->n_fail_inj : 0; }
+
+static void op_destroy_dead(World &W, const Json &op) {
+    bool ok; int d = pick_desc(W, W.slots[0], op["dm"].str().empty() ? "dead" : op["dm"].str(), op["var"].in(0), &ok);
+    if (!ok) return;
+    W.cur_api = "instance_destroy";
+    W.fault("DESTROY_DEAD");
+    int rc = liberasurecode_instance_destroy(d);
+    W.trace.add("destroy_dead.rc", rc);
+    if (rc >= 0) W.viol("C14 C13", "instance_destroy/dead-descriptor-accepted", "destroy of descriptor " + std::to_string(d) + " that is not live returned " + std::to_string(rc));
+}
+
+void exec_op_misc(World &W, const Json &op, const std::string &kind) {
+    if (kind == "BADCALL") op_badcall(W, op);
+    else if (kind == "CYCLE") op_cycle(W, op);
+    else if (kind == "CANARY") op_canary(W, op);
+    else if (kind == "SETCTR") op_setctr(W, op);
+    else if (kind == "ISAL") op_isal(W, op);
+    else if (kind == "DESTROY_DEAD") op_destroy_dead(W, op);
+    else W.probe("op.unknown");
+}
